@@ -116,6 +116,17 @@ pub async fn beaver_aand(channel: &impl Channel, delta: u128, alpha_beta: &[(VSh
 }
 pub fn bucket_size(l: usize) -> usize { crate::mpc::faand::bucket_size(l) }
 
+/// the trusted-dealer provider (`fpre.rs`) …
+pub async fn fpre_dealer(channel: &(impl Channel + Send), parties: usize) -> Result<(), String> {
+    crate::mpc::fpre::fpre(channel, parties).await.map_err(|e| format!("{e:?}"))
+}
+/// … and `mpc` with `Preprocessor::TrustedDealer(p_fpre)` (crate-internal; the public `mpc` always uses `Untrusted`).
+#[allow(clippy::too_many_arguments)]
+pub async fn mpc_with_dealer(channel: &impl Channel, circuit: &garble_lang::register_circuit::Circuit, inputs: &[bool], p_fpre: usize, p_eval: usize, p_own: usize, p_out: &[usize]) -> Result<Vec<bool>, crate::mpc::protocol::Error> {
+    let ctx = crate::mpc::protocol::Context::new(channel, circuit, inputs, crate::mpc::protocol::Preprocessor::TrustedDealer(p_fpre), p_eval, p_own, p_out, None);
+    crate::mpc::protocol::_mpc(&ctx).await
+}
+
 // ---------------------------------------------------------------------------------------------
 // Taps: read-only observation of secret / derived values (C04, C06, C07). The sink is thread-local; without a sink a
 // tap is a no-op. `party == usize::MAX` means "the party the harness is currently polling".
